@@ -14,6 +14,7 @@ func init() {
 	extraGens["vesting"] = func(r *rand.Rand, depth int) (string, []Step) { return "vesting", genVestingWalk(r, depth) }
 	extraGens["batch"] = func(r *rand.Rand, depth int) (string, []Step) { return "ledger", genBatchWalk(r, depth) }
 	extraGens["orders"] = func(r *rand.Rand, depth int) (string, []Step) { return "orders", genOrdersWalk(r, depth) }
+	extraGens["chain"] = func(r *rand.Rand, depth int) (string, []Step) { return "chain", genChainWalk(r, depth) }
 	extraGens["oracle"] = func(r *rand.Rand, depth int) (string, []Step) { return "oracle", genOracleWalk(r, depth) }
 }
 
@@ -195,6 +196,79 @@ func genOrdersWalk(r *rand.Rand, n int) []Step {
 		}
 		if r.Intn(2) == 0 {
 			st = append(st, Step{"a": "block", "dt": float64(pick(r, 5, 5, 60))})
+		}
+	}
+	return st
+}
+
+// genChainWalk (C18 / C19): the widest user alphabet interleaved with environment faults - oracle outages (prices live
+// for 3 blocks / 1 hour in scene "chain"), block-time gaps up to 40 days (several epochs at once), fees paid in any denom
+// (incl. one without a pool and one unknown to the oracle), dust amounts, sends to the zero address before an epoch end.
+func genChainWalk(r *rand.Rand, n int) []Step {
+	var st []Step
+	users := []string{"u1", "u2", "u3"}
+	outage := 0
+	nextLev, nextPerp := 1, 1
+	sizes := []string{"one", "dust", "s1", "s2", "s3"}
+	for i := 0; i < n; i++ {
+		u := pick(r, users...)
+		switch r.Intn(30) {
+		case 0, 1:
+			st = append(st, Step{"a": "swapIn", "u": u, "p": float64(1 + r.Intn(2)), "din": pick(r, "uusdc", ""), "sz": pick(r, sizes...), "limit": pick(r, "loose", "tight")})
+		case 2:
+			st = append(st, Step{"a": "swapOut", "u": u, "p": float64(1 + r.Intn(2)), "din": pick(r, "uusdc", ""), "sz": pick(r, "one", "dust", "s1", "s2"), "limit": "loose"})
+		case 3:
+			st = append(st, Step{"a": "swapIn", "u": u, "route": []any{float64(1), float64(2)}, "din": "uatom", "sz": pick(r, sizes...), "limit": "loose"})
+		case 4:
+			st = append(st, Step{"a": "join", "u": u, "p": float64(1 + r.Intn(2)), "sz": pick(r, "one", "s1", "s2", "x2"), "mode": pick(r, "all", "single"), "d": pick(r, "uusdc", "")})
+		case 5:
+			st = append(st, Step{"a": "exit", "u": pick(r, "u1", u), "p": float64(1 + r.Intn(2)), "frac": pick(r, "one", "third", "most", "allbut1", "all"), "d": pick(r, "", "", "uusdc")})
+		case 6:
+			st = append(st, Step{"a": "bond", "u": u, "sz": pick(r, "1", "1000000", "250000000000")})
+		case 7:
+			st = append(st, Step{"a": "unbond", "u": pick(r, "u4", u), "frac": pick(r, "one", "third", "all")})
+		case 8, 9:
+			st = append(st, Step{"a": "levOpen", "u": u, "p": float64(1), "sz": pick(r, "1000000", "s1", "s2"), "lev": pick(r, "1.5", "2", "5", "9")})
+			nextLev++
+		case 10:
+			st = append(st, Step{"a": "levClose", "u": u, "id": float64(1 + r.Intn(nextLev)), "frac": pick(r, "one", "third", "all")})
+		case 11, 12:
+			st = append(st, Step{"a": "perpOpen", "u": u, "p": float64(1), "side": pick(r, "long", "long", "short"), "coll": pick(r, "uusdc", "trading"), "sz": pick(r, "1000000", "s1", "s2"), "lev": pick(r, "2", "3", "5", "0")})
+			nextPerp++
+		case 13:
+			st = append(st, Step{"a": "perpClose", "u": u, "id": float64(1 + r.Intn(nextPerp)), "frac": pick(r, "third", "all")})
+		case 14:
+			reqs := []any{[]any{pick(r, users...), float64(1 + r.Intn(nextPerp))}}
+			st = append(st, Step{"a": "perpClosePositions", "u": "bot", pick(r, "liq", "sl", "tp"): reqs})
+		case 15:
+			reqs := []any{[]any{pick(r, users...), float64(1 + r.Intn(nextLev))}}
+			st = append(st, Step{"a": "levClosePositions", "u": "bot", pick(r, "liq", "sl"): reqs})
+		case 16:
+			st = append(st, Step{"a": "claim", "u": u, "pools": []any{float64(1), float64(2), float64(32767)}})
+		case 17:
+			st = append(st, Step{"a": "feed", "asset": pick(r, "ATOM", "ATOM", "ELYS"), "mul": pick(r, "0.5", "0.8", "0.97", "1.03", "1.25", "2")})
+		case 18:
+			st = append(st, Step{"a": "fee", "d": pick(r, "uusdc", "uatom", "uelys", "uelys", denomWBTC, "uusdt", "ibc/UNKNOWN"), "amt": float64(pick(r, 1, 7, 2000, 5000000))})
+		case 19:
+			outage = pick(r, 1, 2, 4, 6, 25) // no price feeds for that many blocks
+		case 20:
+			st = append(st, Step{"a": "send", "u": u, "to": "zero", "d": pick(r, "uusdc", "uatom", "uelys", "uusdt"), "sz": pick(r, "one", "dust", "s1")})
+		case 24:
+			st = append(st, Step{"a": "lockAccount", "u": u, "to": pick(r, "zero", "zero", "mod:masterchef", "u4"), "d": pick(r, "uelys", "uusdc"), "amt": pick(r, "1", "1000")})
+		case 21:
+			st = append(st, Step{"a": "spotOrder", "u": u, "type": pick(r, "LIMITSELL", "STOPLOSS"), "base": "uatom", "quote": "uusdc", "d": "uatom", "target": "uusdc", "sz": "s1", "mul": pick(r, "0.9", "1.1")})
+		case 22:
+			st = append(st, Step{"a": "execOrders", "u": "bot", "spot": []any{float64(1 + r.Intn(3))}, "perp": []any{}})
+		case 23:
+			st = append(st, Step{"a": "incentive", "u": u, "p": float64(1 + r.Intn(2)), "d": pick(r, "uusdc", "uatom"), "perBlock": pick(r, "1", "1000"), "from": float64(r.Intn(3)), "len": float64(1 + r.Intn(20))})
+		default:
+			// a block: refresh the prices unless an outage is running; sometimes a long gap
+			if outage > 0 {
+				outage--
+			} else {
+				st = append(st, Step{"a": "feedAll"})
+			}
+			st = append(st, Step{"a": "block", "dt": float64(pick(r, 5, 5, 5, 5, 60, 3600, 3600, 86400, 172800, 3456000))})
 		}
 	}
 	return st
